@@ -209,3 +209,57 @@ func verifLineMixedHarness(prop string) {
 }
 
 func verif_C19_line_mixed() { verifLineMixedHarness("C19") }
+
+// verif_C19_limiter_step: ONE lineLimitReader.Read from an ARBITRARY state
+// (limit L and count c arbitrary ints with 0 <= c <= L, L >= 1) over up to 3
+// arbitrary octets, compared with a closed form written from the statement:
+// the count at octet i is i-j+1 if the last LF at or before i is at j, and
+// c+i+1 if there is none; the read is refused iff some count exceeds L.
+// Inductive step for "the limiter's count is the number of octets since the
+// last LF (the LF included)", for every limit.
+func verif_C19_limiter_step() {
+	k := nondetInt(0, 3)
+	oct := nondetBytesN(k)
+	L := nondetInt(1, 1<<31)
+	c := nondetInt(0, 1<<31)
+	assume(c <= L)
+	src := &verifSrc{data: oct, final: io.EOF}
+	r := &lineLimitReader{R: src, LineLimit: L, curLineLength: c}
+	b := make([]byte, 4)
+	n, err := r.Read(b)
+	// closed form
+	trip := false
+	lastLF := -1
+	final := c
+	for i := 0; i < k; i++ {
+		if oct[i] == '\n' {
+			lastLF = i
+		}
+		cnt := c + i + 1
+		if lastLF >= 0 {
+			cnt = i - lastLF + 1
+		}
+		if cnt > L {
+			trip = true
+		}
+		final = cnt
+	}
+	verifObserve("c19ls", k, oct, L, c, n, err == nil, r.curLineLength)
+	if k == 0 {
+		verifReach("C19.lstep-eof")
+		verifAssert(n == 0 && err == io.EOF && r.curLineLength == c, "C19.lstep-eof-passes-through")
+		return
+	}
+	if trip {
+		verifReach("C19.lstep-trip")
+		verifAssert(n == 0 && err == ErrTooLongLine, "C19.lstep-refused-iff-count-exceeds")
+		verifAssert(r.exceeded(), "C19.lstep-stays-refused")
+	} else {
+		verifReach("C19.lstep-pass")
+		verifAssert(n == k && err == nil, "C19.lstep-passes-iff-count-within")
+		verifAssert(r.curLineLength == final && r.curLineLength <= L && !r.exceeded(), "C19.lstep-count-is-octets-since-last-lf")
+		for i := 0; i < k; i++ {
+			verifAssert(b[i] == oct[i], "C19.lstep-octets-unchanged")
+		}
+	}
+}
